@@ -1,6 +1,10 @@
 """C08 - retargeting an alignment equals rebuilding it, whatever happened before."""
+import math
+import warnings
+
 import numpy as np
 from hypothesis import strategies as st
+from scipy.spatial.distance import cdist
 
 from vlib.runner import Clause
 from vlib import gen, objs, digest
@@ -11,39 +15,73 @@ import menpo.transform as mt
 from menpo.transform import rbf as mrbf
 from menpo.transform import GeneralizedProcrustesAnalysis
 from menpo.transform.piecewiseaffine.base import CachedPWA, PythonPWA
-from menpo.shape import PointCloud, TriMesh
+from menpo.shape import PointCloud, TriMesh, PointDirectedGraph, PointUndirectedGraph
 
 PROPERTY = "C08"
 RULE = (
     "Histories generated as plain data and executed on live objects: an alignment (5 homogeneous alignment classes in "
-    "2-D/3-D with every value of rotation / allow_mirror; ThinPlateSplines with kernel None / R2LogR2RBF / R2LogRRBF x "
-    "min_singular_val 1e-4 / 1e-2; PythonPWA / CachedPWA with a PointCloud (Delaunay) or an explicit TriMesh source) is "
-    "constructed on target t0, then 2-9 steps drawn from {set_target(pool target: member(source)+noise with arbitrary "
-    "rotation, reflection in half of them, anisotropy; possibly a target used before, as a new or as the very same "
-    "object), set_target(target with another point count), set_target(target of another dimension), copy(), "
-    "from_vector(perturbed parameters) for the vectorizable alignments}; every step names the live object (original, a "
-    "copy, a from_vector result) it acts on.  After every step every live object is compared with the fresh construction "
-    "it has to equal.  Non-trivial: >= 2 accepted retargets with distinct targets and, for classes with options, at some "
-    "retarget step the fresh fit with an option flipped differs by > 1e-3 (absolute; coordinates are O(10)) on the probes.  The GPA clause draws "
-    "3-6 similarity-related noisy shapes (half of them reflected) in 2-D/3-D and allow_mirror.  Distinct = distinct "
-    "canonical-JSON digest."
+    "2-D/3-D with every value of rotation / allow_mirror; ThinPlateSplines with kernel None / R2LogR2RBF / R2LogRRBF / a "
+    "user-defined r^3 kernel x min_singular_val 1e-4 / 1e-2; PythonPWA / CachedPWA with a PointCloud (Delaunay) or an "
+    "explicit TriMesh source) is constructed on target t0 from a source that is float or integer typed and a PointCloud, "
+    "TriMesh, PointDirectedGraph or PointUndirectedGraph, then 2-11 steps drawn from {set_target(pool target: "
+    "member(source)+noise with arbitrary rotation, reflection in half of them, anisotropy; possibly a target used before, "
+    "as a new or as the very same object), set_target(the target the object reports right now, as the same or an equal "
+    "object), set_target(target of a wrong shape: one point more / fewer, one coordinate more / fewer, both, no points, or "
+    "another (points, dimensions) factorisation of the same number of coordinates), copy(), pseudoinverse() (homogeneous, "
+    "TPS), from_vector(perturbed parameters) / from_vector_inplace / compose_before_inplace / compose_after_inplace with "
+    "a member of the own family for the alignments that support them}; every step names the live object (original, a "
+    "copy, a from_vector result, a pseudoinverse) it acts on.  After every step every live object is compared with the "
+    "fresh construction it has to equal (pseudoinverse: the class on (old target, t) with the same options).  "
+    "Non-trivial: >= 2 accepted retargets with distinct targets and, for classes with options, at some retarget step the "
+    "fresh fit with an option flipped differs by > 1e-3 (absolute; coordinates are O(10)) on the probes.  The GPA clause "
+    "draws 3-6 similarity-related noisy shapes (half of them reflected) or 2-6 unrelated random shapes (extent 10 / 100 / "
+    "1000, up to 12 points: these reach the iteration cap in some percent of the draws) in 2-D/3-D, float or integer "
+    "typed, PointCloud or TriMesh, and allow_mirror.  Distinct = distinct canonical-JSON digest."
 )
 ASSUMPTIONS = [
-    "differential oracle fresh = Class(source, t, same options) built from private copies of the case's arrays, paired "
-    "with independent references: centroid difference, centred-norm ratio, lstsq affine, polar-factor rotation (eigh, not "
-    "SVD), Procrustes similarity assembled from those, bordered-system TPS (solve / lstsq rcond), barycentric PWA",
+    "differential oracle fresh = Class(source, t, same options) built from private copies of the case's arrays (source of "
+    "the same dtype, as a plain PointCloud unless the class reads connectivity from it), paired with independent "
+    "references: centroid difference, centred-norm ratio, lstsq affine, polar-factor rotation (eigh, not SVD), Procrustes "
+    "similarity assembled from those, bordered-system TPS (solve / lstsq rcond) with the kernel evaluated by a scalar "
+    "formula, barycentric PWA",
     "reference comparisons are skipped (and counted) when the optimal rotation is not well separated (smallest singular "
     "value of the correlation matrix < 1e-3 of the largest, or flip direction ambiguous) or a TPS singular value lies "
     "within a factor 2 of the floor; the fresh-vs-retargeted comparison is never skipped",
-    "rejected targets: one point more / fewer than the source, or one coordinate more / fewer; ValueError is the only "
-    "accepted outcome and the full object digest (caches excluded) must be unchanged",
+    "what is compared: h_matrix, apply(probes), target, aligned_source, alignment_error(), n_points, n_dims, as_vector() "
+    "(vectorizable classes) and pseudoinverse().apply(probes) (homogeneous and TPS)",
+    "rejected targets: ValueError is the only accepted outcome and the object (digest.parameter_mutation, caches excluded, "
+    "and every compared observable) must be unchanged",
     "identity of the target object held by the alignment is not examined, only its coordinates",
-    "PWA probes are strict convex combinations (weights >= 0.05) of source triangles of the transform's own triangle list",
+    "PWA probes are strict convex combinations (weights >= 0.05) of source triangles of the transform's own triangle list; "
+    "pseudoinverse() steps are not generated for PWA (its inverse re-triangulates, the probes would not transfer)",
+    "pseudoinverse() is taken only of objects that hold a pool target (not of from_vector / composed states whose target "
+    "may be degenerate); its own map is not judged here (C04), only that it keeps the class and that later retargets "
+    "equal the fresh class on (old target, t, same options)",
 ]
 
 _CACHE = ("._applied_points", "._iab")
 HOMOG_CLASSES = ["AlignmentSimilarity", "AlignmentRotation", "AlignmentAffine", "AlignmentTranslation", "AlignmentUniformScale"]
 MAX_LIVE = 4
+RBF_KINDS = [None, "R2LogR2RBF", "R2LogRRBF", "R3"]
+SRC_KINDS = ["PointCloud", "PointCloud", "TriMesh", "PointDirectedGraph", "PointUndirectedGraph"]
+
+
+class CubicRBF(mrbf.RadialBasisFunction):
+    """A caller-defined kernel, phi(r) = r^3 (conditionally positive definite of order 2, like the built-in ones)."""
+
+    def __init__(self, c):
+        super(CubicRBF, self).__init__(c)
+
+    def _apply(self, x, **kwargs):
+        return cdist(x, self.c) ** 3
+
+
+def make_kernel(kind, centres):
+    if kind is None:
+        return None
+    if kind == "R3":
+        return CubicRBF(centres)
+    return getattr(mrbf, kind)(centres)
 
 
 def _scale(*xs):
@@ -56,11 +94,101 @@ def _scale(*xs):
 
 
 # ==============================================================================================
+# thin-plate-spline reference for any radial kernel given as a scalar function
+
+
+def _u(r, kind):
+    if kind == "R3":
+        return r * r * r
+    return rw.tps_u(r, kind)
+
+
+def _tps_system(src, kind):
+    if kind != "R3":
+        return rw.tps_system(src, kind)
+    src = np.asarray(src, dtype=float)
+    n = src.shape[0]
+    big = np.zeros((n + 3, n + 3))
+    for i in range(n):
+        for j in range(n):
+            big[i, j] = _u(math.hypot(src[i, 0] - src[j, 0], src[i, 1] - src[j, 1]), kind)
+        big[i, n], big[i, n + 1], big[i, n + 2] = 1.0, src[i, 0], src[i, 1]
+        big[n, i], big[n + 1, i], big[n + 2, i] = 1.0, src[i, 0], src[i, 1]
+    return big
+
+
+def tps_fit(src, tgt, kind, floor):
+    """Same contract as refs_warp.tps_fit, kernel r^3 included."""
+    if kind != "R3":
+        return rw.tps_fit(src, tgt, kind, floor)
+    src = np.asarray(src, dtype=float)
+    tgt = np.asarray(tgt, dtype=float)
+    n = src.shape[0]
+    big = _tps_system(src, kind)
+    rhs = np.zeros((n + 3, 2))
+    rhs[:n] = tgt
+    sv = np.linalg.svd(big, compute_uv=False)
+    clear = not np.any((sv > floor / 2.0) & (sv < floor * 2.0))
+    if sv.min() >= floor:
+        w = np.linalg.solve(big, rhs)
+        mode = "solve"
+    else:
+        w, _, _, _ = np.linalg.lstsq(big, rhs, rcond=floor / sv.max())
+        mode = "truncated"
+    return {"w": w, "sv": sv, "mode": mode, "clear": bool(clear)}
+
+
+def tps_eval(src, w, kind, q):
+    if kind != "R3":
+        return rw.tps_eval(src, w, kind, q)
+    src = np.asarray(src, dtype=float)
+    q = np.asarray(q, dtype=float)
+    n = src.shape[0]
+    out = np.zeros((q.shape[0], 2))
+    for a in range(q.shape[0]):
+        acc = w[n] + w[n + 1] * q[a, 0] + w[n + 2] * q[a, 1]
+        for i in range(n):
+            acc = acc + w[i] * _u(math.hypot(q[a, 0] - src[i, 0], q[a, 1] - src[i, 1]), kind)
+        out[a] = acc
+    return out
+
+
+# ==============================================================================================
 # case generation (plain data)
 
 
 def _round(a):
     return [[round(float(v) * 4096) / 4096 for v in row] for row in np.asarray(a)]
+
+
+def _int_rounded(pts):
+    return [[float(round(v)) for v in row] for row in pts]
+
+
+@st.composite
+def _source(draw, n, d, extent=10.0):
+    """(points, integer_typed): a jittered-lattice point set in general position; one in four is rounded to whole numbers
+    and handed to menpo with an integer dtype (cells are >= 2 units wide, so points stay distinct)."""
+    if draw(st.integers(0, 3)) == 0:
+        return draw(gen.points_case(n=n, d=d, extent=extent).map(_int_rounded).filter(gen.non_collinear)), True
+    return draw(gen.points_case(n=n, d=d, extent=extent).filter(gen.non_collinear)), False
+
+
+@st.composite
+def _connectivity(draw, kind, n):
+    if kind == "TriMesh":
+        return draw(objs.tri_case(n))
+    if kind in ("PointDirectedGraph", "PointUndirectedGraph"):
+        m = draw(st.integers(1, min(8, n * (n - 1) // 2)))
+        edges = draw(st.lists(st.lists(st.integers(0, n - 1), min_size=2, max_size=2, unique=True), min_size=m, max_size=m))
+        seen, out = set(), []
+        for a, b in edges:
+            key = (a, b) if kind == "PointDirectedGraph" else (min(a, b), max(a, b))
+            if key not in seen:
+                seen.add(key)
+                out.append([a, b])
+        return out
+    return None
 
 
 @st.composite
@@ -74,26 +202,58 @@ def _target(draw, src, d, levels=(0.0, 0.05, 0.3)):
     return _round(np.array(src).dot(lin.T) + t + noise)
 
 
-def _steps(draw, vectorizable, n_pool):
-    """2-10 steps; two set_target steps with different pool targets are always present (anywhere in the sequence)."""
-    kinds = ["set"] * 4 + ["copy", "bad_n", "bad_d"] + (["from_vector"] if vectorizable else ["copy"])
-    out = []
-    for _ in range(draw(st.integers(0, 7))):
-        k = draw(st.sampled_from(kinds))
+_BAD_VARIANTS = [["n", -1], ["n", 1], ["d", 1], ["d", -1], ["reshape", 0], ["reshape", 1], ["reshape", 2], ["reshape", 0],
+                 ["empty", 0], ["empty", 0], ["both", -1, 1], ["both", 1, -1], ["both", 1, 1]]
+
+
+def _one_step(draw, k, n_pool, who=None):
+    if who is None:
         who = draw(st.integers(0, MAX_LIVE - 1))
-        if k == "set":
-            out.append([k, who, draw(st.integers(0, n_pool - 1)), draw(st.booleans())])
-        elif k == "bad_n":
-            out.append([k, who, draw(st.integers(0, n_pool - 1)), draw(st.sampled_from([-1, 1]))])
-        elif k == "bad_d":
-            out.append([k, who, draw(st.integers(0, n_pool - 1))])
-        elif k == "copy":
-            out.append([k, who])
-        else:
-            out.append([k, who, draw(st.lists(gen.q(-0.5, 0.5), min_size=12, max_size=12))])
+    if k == "set":
+        return [k, who, draw(st.integers(0, n_pool - 1)), draw(st.booleans())]
+    if k == "bad":
+        return [k, who, draw(st.integers(0, n_pool - 1)), list(draw(st.sampled_from(_BAD_VARIANTS)))]
+    if k in ("copy", "pinv"):
+        return [k, who]
+    if k == "same":
+        return [k, who, draw(st.booleans())]
+    if k in ("from_vector", "fvi"):
+        return [k, who, draw(st.lists(gen.q(-0.5, 0.5), min_size=12, max_size=12))]
+    if k == "compose":
+        return [k, who, draw(st.sampled_from(["before", "after"])), draw(st.lists(gen.q(-1, 1), min_size=8, max_size=8))]
+    raise KeyError(k)
+
+
+def _steps(draw, cap, n_pool):
+    """2-11 steps; two set_target steps with different pool targets are always present (anywhere in the sequence).
+    In a third of the cases a state-changing step is directly followed by a retarget of the same object: (in-place
+    mutation, set_target(the target it reports)), (in-place mutation, set_target(pool target)) or (pseudoinverse,
+    set_target(pool target) on that pseudoinverse)."""
+    kinds = ["set"] * 4 + ["copy", "bad", "bad", "same"]
+    mutators = []
+    if cap["vector"]:
+        kinds += ["from_vector", "fvi"]
+        mutators.append("fvi")
+    if cap["compose"]:
+        kinds += ["compose"]
+        mutators += ["compose", "compose"]
+    if cap["pinv"]:
+        kinds += ["pinv"]
+    out = [_one_step(draw, draw(st.sampled_from(kinds)), n_pool) for _ in range(draw(st.integers(0, 7)))]
     two = draw(st.lists(st.integers(0, n_pool - 1), min_size=2, max_size=2, unique=True))
     for ti in two:
         out.insert(draw(st.integers(0, len(out))), ["set", draw(st.integers(0, MAX_LIVE - 1)), ti, draw(st.booleans())])
+    pairs = (["mut_same", "mut_set"] if mutators else []) + (["pinv_set"] if cap["pinv"] else [])
+    if pairs and draw(st.integers(0, 2)) == 0:
+        kind = draw(st.sampled_from(pairs))
+        who = draw(st.integers(0, MAX_LIVE - 1))
+        if kind == "pinv_set":
+            pair = [_one_step(draw, "pinv", n_pool, who), _one_step(draw, "set", n_pool, -1)]  # -1: the newest live object
+        else:
+            first = _one_step(draw, draw(st.sampled_from(mutators)), n_pool, who)
+            pair = [first, _one_step(draw, "same" if kind == "mut_same" else "set", n_pool, who)]
+        pos = draw(st.integers(1, len(out)))
+        out[pos:pos] = pair
     return out
 
 
@@ -112,14 +272,16 @@ def s_homog(draw):
     elif cls == "AlignmentRotation":
         opts = {"allow_mirror": draw(st.booleans())}
     n = draw(st.integers(d + 2, 8))
-    src = draw(gen.points_case(n=n, d=d).filter(gen.non_collinear))
+    src, src_int = draw(_source(n, d))
+    src_kind = draw(st.sampled_from(SRC_KINDS))
     k = draw(st.integers(2, 5))
     targets = [draw(_target(src, d)) for _ in range(k)]
     if draw(st.integers(0, 5)) == 0:
         targets[draw(st.integers(0, k - 1))] = [list(p) for p in src]  # the source itself as a target
     return {
-        "family": "homog", "cls": cls, "d": d, "opts": opts, "src": src, "targets": targets,
-        "steps": _steps(draw, _vectorizable(cls, d), k),
+        "family": "homog", "cls": cls, "d": d, "opts": opts, "src": src, "src_int": src_int, "src_kind": src_kind,
+        "src_conn": draw(_connectivity(src_kind, n)), "targets": targets,
+        "steps": _steps(draw, {"vector": _vectorizable(cls, d), "compose": True, "pinv": True}, k),
         "probes": draw(st.lists(gen.vec(d, -10, 10), min_size=2, max_size=5)),
     }
 
@@ -127,12 +289,14 @@ def s_homog(draw):
 @st.composite
 def s_warp(draw):
     family = draw(st.sampled_from(["tps", "pwa"]))
-    c = {"family": family, "d": 2, "opts": {}}
+    c = {"family": family, "d": 2, "opts": {}, "src_int": False, "src_kind": "PointCloud", "src_conn": None}
     if family == "tps":
         c["cls"] = "ThinPlateSplines"
-        c["opts"] = {"rbf": draw(st.sampled_from(objs.RBF_KINDS)), "msv": draw(st.sampled_from([1e-4, 1e-2]))}
+        c["opts"] = {"rbf": draw(st.sampled_from(RBF_KINDS)), "msv": draw(st.sampled_from([1e-4, 1e-2]))}
         n = draw(st.integers(4, 9))
-        c["src"] = draw(gen.points_case(n=n, d=2, extent=10.0).filter(gen.non_collinear))
+        c["src"], c["src_int"] = draw(_source(n, 2))
+        c["src_kind"] = draw(st.sampled_from(SRC_KINDS))
+        c["src_conn"] = draw(_connectivity(c["src_kind"], n))
         c["probes"] = draw(st.lists(gen.vec(2, -2, 12), min_size=2, max_size=5))
     else:
         c["cls"] = draw(st.sampled_from(["PythonPWA", "CachedPWA"]))
@@ -140,7 +304,9 @@ def s_warp(draw):
         c["opts"] = {"mode": mode}
         if mode == "delaunay":
             n = draw(st.integers(4, 9))
-            c["src"] = draw(gen.points_case(n=n, d=2, extent=10.0).filter(gen.non_collinear))
+            c["src"], c["src_int"] = draw(_source(n, 2))
+            c["src_kind"] = draw(st.sampled_from(["PointCloud", "PointCloud", "PointDirectedGraph", "PointUndirectedGraph"]))
+            c["src_conn"] = draw(_connectivity(c["src_kind"], n))
         else:
             gx, gy = draw(st.integers(2, 3)), draw(st.integers(2, 3))
             n = gx * gy
@@ -150,10 +316,11 @@ def s_warp(draw):
             c["opts"]["diag"] = draw(st.lists(st.booleans(), min_size=(gx - 1) * (gy - 1), max_size=(gx - 1) * (gy - 1)))
             c["src"] = [[(ix + 0.5 + jit[ix + gx * iy][0]) * cell, (iy + 0.5 + jit[ix + gx * iy][1]) * cell]
                         for iy in range(gy) for ix in range(gx)]
+            c["src_kind"] = "TriMesh"
         c["probes"] = draw(objs.bary_picks(2, 5))
     k = draw(st.integers(2, 5))
     c["targets"] = [draw(_target(c["src"], 2, (0.05, 0.3, 0.6))) for _ in range(k)]
-    c["steps"] = _steps(draw, False, k)
+    c["steps"] = _steps(draw, {"vector": False, "compose": False, "pinv": family == "tps"}, k)
     return c
 
 
@@ -169,7 +336,8 @@ def _flip_options(c):
     if cls == "AlignmentRotation":
         return [("allow_mirror", dict(o, allow_mirror=not o["allow_mirror"]))]
     if cls == "ThinPlateSplines":
-        other_k = "R2LogRRBF" if o["rbf"] in (None, "R2LogR2RBF") else "R2LogR2RBF"
+        # (R2LogR2RBF and R2LogRRBF differ by a factor 2 and give the same interpolant: the flip crosses to / from r^3)
+        other_k = None if o["rbf"] == "R3" else "R3"
         return [("min_singular_val", dict(o, msv=1e-2 if o["msv"] == 1e-4 else 1e-4)), ("kernel", dict(o, rbf=other_k))]
     if c["family"] == "pwa":
         if o["mode"] == "grid":
@@ -179,15 +347,15 @@ def _flip_options(c):
 
 
 def build(c, opts, src, tgt):
-    """Fresh alignment of the case's class with the given options from private copies of the arrays."""
-    src = np.array(src, dtype=float, copy=True)
+    """Fresh alignment of the case's class with the given options from private copies of the arrays (the source keeps
+    its dtype)."""
+    src = np.array(src, copy=True)
     tp = PointCloud(np.array(tgt, dtype=float, copy=True))
     cls = c["cls"]
     if c["family"] == "homog":
         return getattr(mt, cls)(PointCloud(src), tp, **opts)
     if c["family"] == "tps":
-        kernel = None if opts["rbf"] is None else getattr(mrbf, opts["rbf"])(src.copy())
-        return mt.ThinPlateSplines(PointCloud(src), tp, kernel=kernel, min_singular_val=opts["msv"])
+        return mt.ThinPlateSplines(PointCloud(src), tp, kernel=make_kernel(opts["rbf"], src.copy()), min_singular_val=opts["msv"])
     k = CachedPWA if cls == "CachedPWA" else PythonPWA
     if opts["mode"] == "grid":
         tl = np.array(rw.grid_trilist(opts["grid"][0], opts["grid"][1], opts["diag"]), dtype=int)
@@ -195,27 +363,91 @@ def build(c, opts, src, tgt):
     return k(PointCloud(src), tp)
 
 
+def source_object(c, arr):
+    """The caller's source object: the class and connectivity named by the case around the (typed) array."""
+    kind, conn = c.get("src_kind", "PointCloud"), c.get("src_conn")
+    if c["family"] == "pwa" and c["opts"]["mode"] == "grid":
+        tl = np.array(rw.grid_trilist(c["opts"]["grid"][0], c["opts"]["grid"][1], c["opts"]["diag"]), dtype=int)
+        return TriMesh(arr, trilist=tl)
+    if kind == "TriMesh":
+        return TriMesh(arr, trilist=np.array(conn, dtype=int))
+    if kind == "PointDirectedGraph":
+        return PointDirectedGraph.init_from_edges(arr, np.array(conn, dtype=int))
+    if kind == "PointUndirectedGraph":
+        return PointUndirectedGraph.init_from_edges(arr, np.array(conn, dtype=int))
+    return PointCloud(arr)
+
+
+def family_member(cls, d, p):
+    """A plain (non-alignment) member of the alignment class's own family from 8 numbers in [-1, 1]."""
+    rot = gen.rotation_from_angles(d, [3.14 * v for v in p[: gen.n_planes(d)]])
+    s = 2.0 ** p[3]
+    t = [4.0 * v for v in p[4: 4 + d]]
+    if cls == "AlignmentTranslation":
+        return mt.Translation(np.array(t))
+    if cls == "AlignmentUniformScale":
+        return mt.UniformScale(s, d)
+    if cls == "AlignmentRotation":
+        return mt.Rotation(rot)
+    if cls == "AlignmentSimilarity":
+        return mt.Similarity(rw.hm(s * rot, t))
+    stretch = np.eye(d)
+    stretch[-1, -1] = 1.0 + 0.3 * p[7]
+    return mt.Affine(rw.hm(s * rot.dot(stretch), t))
+
+
 class Observed(object):
     """What the property lets a caller see of an alignment."""
 
-    def __init__(self, a, q, homog):
+    def __init__(self, a, q, homog, vector=False, pinv=False):
         self.h = np.array(a.h_matrix, dtype=float, copy=True) if homog else None
         self.out = np.array(a.apply(q.copy()), dtype=float, copy=True)
         self.target = np.array(a.target.points, dtype=float, copy=True)
         self.aligned = np.array(a.aligned_source().points, dtype=float, copy=True)
+        self.error = np.array([float(a.alignment_error())])
+        self.counts = np.array([int(a.n_points), int(a.n_dims)])
+        self.vector = np.array(a.as_vector(), dtype=float, copy=True) if vector else None
+        self.pinv_out = np.array(a.pseudoinverse().apply(q.copy()), dtype=float, copy=True) if pinv else None
 
     def fields(self):
-        f = [("apply", self.out), ("target", self.target), ("aligned_source", self.aligned)]
+        """(name, value, tolerance multiplier)"""
+        f = [("apply", self.out, 1.0), ("target", self.target, 1.0), ("aligned_source", self.aligned, 1.0),
+             ("alignment_error", self.error, 10.0), ("n_points_n_dims", self.counts, 0.0)]
         if self.h is not None:
-            f.insert(0, ("h_matrix", self.h))
+            f.insert(0, ("h_matrix", self.h, 1.0))
+        if self.vector is not None:
+            f.append(("as_vector", self.vector, 1.0))
+        if self.pinv_out is not None:
+            f.append(("pseudoinverse_apply", self.pinv_out, 10.0))
         return f
 
 
 def compare(ctx, prefix, got, want, atol, info):
     ok = True
-    for (name, g), (_, w) in zip(got.fields(), want.fields()):
-        ok &= ctx.expect(close(g, w, rtol=0, atol=atol), "%s.%s" % (prefix, name), lambda g=g, w=w: "%s\n%s" % (info, describe(g, w)))
+    for (name, g, mult), (_, w, _) in zip(got.fields(), want.fields()):
+        ok &= ctx.expect(close(g, w, rtol=0, atol=atol * mult), "%s.%s" % (prefix, name), lambda g=g, w=w: "%s\n%s" % (info, describe(g, w)))
     return ok
+
+
+def bad_target_array(base, variant):
+    """A target of a wrong shape for an alignment whose target has base's shape, filled with base's coordinates.
+    Returns (array, kind)."""
+    n, d = base.shape
+    flat = base.ravel()
+    v = variant[0]
+    if v == "n":
+        shape, kind = (n + variant[1], d), "point_count"
+    elif v == "d":
+        shape, kind = (n, d + variant[1]), "dimension"
+    elif v == "both":
+        shape, kind = (n + variant[1], d + variant[2]), "both"
+    elif v == "empty":
+        shape, kind = (0, d), "no_points"
+    else:
+        alts = [(n * d // dd, dd) for dd in (1, 2, 3, 4, 6) if dd != d and (n * d) % dd == 0]
+        shape, kind = alts[variant[1] % len(alts)], "same_size_other_shape"
+    size = shape[0] * shape[1]
+    return (np.resize(flat, size).reshape(shape).astype(float) if size else np.zeros(shape)), kind
 
 
 # ==============================================================================================
@@ -226,7 +458,8 @@ def run_history(c, ctx):
     homog = c["family"] == "homog"
     cls, d, opts = c["cls"], c["d"], c["opts"]
     off = float(c.get("frame_offset", 0.0))
-    src = gen.arr(c["src"]) + off
+    src_f = gen.arr(c["src"]) + off  # the values; src is what menpo is given (maybe integer typed)
+    src = src_f.astype(np.int64) if c.get("src_int") else src_f
     pool = [gen.arr(t) + off for t in c["targets"]]
     ints = list(c.get("int_targets", [False] * len(pool)))
     for i, flag in enumerate(ints):
@@ -236,7 +469,10 @@ def run_history(c, ctx):
         ctx.event("frame offset %g" % off)
     if any(ints):
         ctx.event("some targets integer-typed")
+    ctx.event("source %s %s" % (c.get("src_kind", "PointCloud"), src.dtype))
     ctx.event("class=%s %dD %s" % (cls, d, ",".join("%s=%s" % kv for kv in sorted(opts.items()) if kv[0] not in ("grid", "diag"))))
+    vector = homog and _vectorizable(cls, d)
+    pinv = c["family"] != "pwa"
 
     # caller-provided objects and their digests
     provided = []
@@ -245,11 +481,7 @@ def run_history(c, ctx):
         provided.append((role, obj, digest.digest(obj)))
         return obj
 
-    if c["family"] == "pwa" and opts["mode"] == "grid":
-        tl = np.array(rw.grid_trilist(opts["grid"][0], opts["grid"][1], opts["diag"]), dtype=int)
-        source_obj = provide("source", TriMesh(src.copy(), trilist=tl))
-    else:
-        source_obj = provide("source", PointCloud(src.copy()))
+    source_obj = provide("source", source_object(c, src.copy()))
     passed = {}  # pool index -> the PointCloud object last passed for it
 
     def target_obj(ti, reuse):
@@ -264,58 +496,65 @@ def run_history(c, ctx):
     if homog:
         a = getattr(mt, cls)(source_obj, t0, **opts)
     elif c["family"] == "tps":
-        kernel = None if opts["rbf"] is None else getattr(mrbf, opts["rbf"])(src.copy())
-        a = mt.ThinPlateSplines(source_obj, t0, kernel=kernel, min_singular_val=opts["msv"])
+        a = mt.ThinPlateSplines(source_obj, t0, kernel=make_kernel(opts["rbf"], src.copy()), min_singular_val=opts["msv"])
     else:
         a = (CachedPWA if cls == "CachedPWA" else PythonPWA)(source_obj, t0)
 
     if c["family"] == "pwa":
         trilist = np.array(a.trilist, dtype=int)
-        q = objs.bary_points(src, trilist, c["probes"])
+        q = objs.bary_points(src_f, trilist, c["probes"])
     else:
         trilist = None
         q = gen.arr(c["probes"]) + off
     q_before = q.copy()
-    sc = _scale(src, q, *pool)
+    sc = _scale(src_f, q, *pool)
     # fresh-vs-retargeted runs the same code on the same numbers: the tolerance only has to absorb rounding noise, which
     # grows with the coordinate magnitude (frame offset) through cancellation
     tight = 1e-10 * sc * (1.0 if not off else max(1.0, off / 1e3))
 
-    def reference_out(ti):
-        """(independent expected apply(q) / h, usable?) for the fit source -> pool[ti]."""
+    def observe(o):
+        return Observed(o, q, homog, vector, pinv)
+
+    def reference_out(s, t):
+        """(independent expected h / apply(q), usable?) for the fit s -> t (float arrays)."""
         if homog:
-            h, well = rw.fit_alignment(cls, src, pool[ti], opts)
+            h, well = rw.fit_alignment(cls, s, t, opts)
             return h, rw.apply_h(h, q), well
         if c["family"] == "tps":
-            ref = rw.tps_fit(src, pool[ti], opts["rbf"], opts["msv"])
-            return None, rw.tps_eval(src, ref["w"], opts["rbf"], q), ref["clear"] and float(ref["sv"].max() / ref["sv"].min()) < 1e7
-        out, outside = rw.pwa_eval(src, pool[ti], trilist, q)
+            ref = tps_fit(s, t, opts["rbf"], opts["msv"])
+            return None, tps_eval(s, ref["w"], opts["rbf"], q), ref["clear"] and float(ref["sv"].max() / ref["sv"].min()) < 1e7
+        out, outside = rw.pwa_eval(s, t, trilist, q)
         return None, out, not outside.any()
 
     fresh_cache = {}
 
-    def fresh_for(ti):
-        if ti not in fresh_cache:
-            f = build(c, opts, src, pool[ti])
-            fresh_cache[ti] = Observed(f, q, homog)
-        return fresh_cache[ti]
+    def key(s, t):
+        return (str(s.dtype), s.tobytes(), t.tobytes())
+
+    def fresh_for(s, t):
+        k = key(s, t)
+        if k not in fresh_cache:
+            fresh_cache[k] = Observed(build(c, opts, s, t), q, homog, vector, pinv)
+        return fresh_cache[k]
 
     visible = {}
 
-    def note_visibility(ti):
-        base = fresh_for(ti)
+    def note_visibility(s, t):
+        base = fresh_for(s, t)
         for label, o2 in _flip_options(c):
-            alt = Observed(build(c, o2, src, pool[ti]), q, homog)
+            alt = Observed(build(c, o2, s, t), q, homog)
             if max(maxdiff(alt.out, base.out), maxdiff(alt.aligned, base.aligned)) > 1e-3:
                 visible[label] = True
 
-    def check_fresh_and_reference(o, ti, what):
-        info = "%s %s after %s, target #%d" % (cls, opts, what, ti)
-        got = Observed(o, q, homog)
-        compare(ctx, "retarget_vs_fresh" if what != "construction" else "construction_vs_fresh", got, fresh_for(ti), tight, info)
-        ctx.expect(np.array_equal(got.target, pool[ti]), "target_is_not_the_one_set" if what != "construction" else "construction.target_is_not_the_one_passed",
-                   lambda: info + "\n" + describe(got.target, pool[ti]))
-        h_ref, out_ref, usable = reference_out(ti)
+    def check_fresh_and_reference(o, e, t, what):
+        s = e["src"]
+        info = "%s %s (%s) after %s" % (cls, opts, e["role"], what)
+        got = observe(o)
+        compare(ctx, "retarget_vs_fresh" if what != "construction" else "construction_vs_fresh", got, fresh_for(s, t), tight, info)
+        ctx.expect(np.array_equal(got.target, t), "target_is_not_the_one_set" if what != "construction" else "construction.target_is_not_the_one_passed",
+                   lambda: info + "\n" + describe(got.target, t))
+        ctx.expect(tuple(got.counts) == t.shape, "n_points_n_dims_are_not_the_target_shape", lambda: info + " %r" % (got.counts,))
+        h_ref, out_ref, usable = reference_out(np.asarray(s, dtype=float), t)
         if usable:
             ctx.event("independent reference compared")
             rt = 1e-7 * sc
@@ -327,19 +566,42 @@ def run_history(c, ctx):
         else:
             ctx.event("independent reference not usable (ill-posed fit)")
 
-    # live objects: dict(obj, expect=Observed, role, alive)
-    live = [{"obj": a, "expect": fresh_for(0), "role": "original", "ti": 0}]
-    check_fresh_and_reference(a, 0, "construction")
-    accepted = []  # target indices of accepted retargets
+    def pool_index(t):
+        for i, p in enumerate(pool):
+            if p.shape == t.shape and np.array_equal(p, t):
+                return i
+        return None
+
+    # live objects: obj, expect (Observed), role, src (the array its source has to hold), tarr (the target array it was
+    # last fitted to, None after a state change that is not a retarget), ti (pool index of tarr or None),
+    # stale (what happened since the last retarget)
+    live = [{"obj": a, "expect": fresh_for(src, pool[0]), "role": "original", "src": src, "tarr": pool[0], "ti": 0, "stale": None}]
+    check_fresh_and_reference(a, live[0], pool[0], "construction")
+    accepted = []  # target arrays of accepted retargets
 
     def verify_all(acting, step_name):
         for k, e in enumerate(live):
             if e is acting:
                 continue
             info = "%s %s: %s #%d after a later %s on another object" % (cls, opts, e["role"], k, step_name)
-            compare(ctx, "bystander_changed", Observed(e["obj"], q, homog), e["expect"], tight if e["ti"] is not None else 0.0, info)
+            compare(ctx, "bystander_changed", observe(e["obj"]), e["expect"], tight if e["tarr"] is not None else 0.0, info)
         for e in live:
-            ctx.expect(np.array_equal(np.asarray(e["obj"].source.points), src), "source_points_changed", "%s after %s" % (e["role"], step_name))
+            ctx.expect(np.array_equal(np.asarray(e["obj"].source.points), e["src"]), "source_points_changed", "%s after %s" % (e["role"], step_name))
+
+    def retargeted(e, t, what):
+        if e["stale"]:
+            ctx.event("retarget after %s" % e["stale"])
+        if e["role"] == "pseudoinverse":
+            ctx.event("retarget of a pseudoinverse")
+        accepted.append(t)
+        e["expect"], e["tarr"], e["ti"], e["stale"] = fresh_for(e["src"], t), t, pool_index(t), None
+        check_fresh_and_reference(e["obj"], e, t, what)
+        note_visibility(e["src"], t)
+        verify_all(e, what)
+
+    def mutated(e, what):
+        e["expect"], e["tarr"], e["ti"], e["stale"] = observe(e["obj"]), None, None, what
+        verify_all(e, what)
 
     for step in c["steps"]:
         k = step[0]
@@ -350,21 +612,21 @@ def run_history(c, ctx):
             tp = target_obj(ti, step[3])
             ctx.event("step=set on %s" % e["role"])
             o.set_target(tp)
-            accepted.append(ti)
-            e["expect"], e["ti"] = fresh_for(ti), ti
-            check_fresh_and_reference(o, ti, "set_target")
-            note_visibility(ti)
-            verify_all(e, "set_target")
-        elif k in ("bad_n", "bad_d"):
+            retargeted(e, pool[ti], "set_target")
+        elif k == "same":
+            cur = np.array(o.target.points, dtype=float, copy=True)
+            if not np.all(np.isfinite(cur)):
+                continue
+            ctx.event("step=set(current target, %s object) on %s" % ("same" if step[2] else "equal", e["role"]))
+            tp = o.target if step[2] else provide("target", PointCloud(cur.copy()))
+            o.set_target(tp)
+            retargeted(e, cur, "set_target(current target)")
+        elif k in ("bad", "bad_n", "bad_d"):
             base = pool[step[2] % len(pool)]
-            if k == "bad_n":
-                bad = base[:-1].copy() if step[3] < 0 else np.vstack([base, base[:1] + 1.0])
-                kind = "point_count"
-            else:
-                bad = np.hstack([base, np.ones((base.shape[0], 1))]) if d == 2 else base[:, :2].copy()
-                kind = "dimension"
+            variant = step[3] if k == "bad" else ["n", step[3]] if k == "bad_n" else ["d", 1 if d == 2 else -1]
+            bad, kind = bad_target_array(base, variant)
             bp = provide("rejected_target", PointCloud(bad))
-            ctx.event("step=%s" % k)
+            ctx.event("step=bad target: %s" % kind)
             before = digest.digest(o, skip=_CACHE)
             try:
                 o.set_target(bp)
@@ -373,7 +635,7 @@ def run_history(c, ctx):
                 rejected = True
             dd = digest.parameter_mutation(before, digest.digest(o, skip=_CACHE))
             if not rejected:
-                ctx.fail("bad_target_accepted." + kind, "%s %s accepted a target of shape %r (source %r)" % (cls, opts, bad.shape, src.shape))
+                ctx.fail("bad_target_accepted." + kind, "%s %s accepted a target of shape %r (target shape %r)" % (cls, opts, bad.shape, base.shape))
                 live.remove(e)
                 if not live:
                     break
@@ -390,12 +652,28 @@ def run_history(c, ctx):
                 continue
             ctx.event("step=copy of %s" % e["role"])
             cp = o.copy()
-            ne = {"obj": cp, "expect": e["expect"], "role": "copy", "ti": e["ti"]}
+            ne = dict(e, obj=cp, role="copy" if e["role"] != "pseudoinverse" else "pseudoinverse")
             live.append(ne)
             ctx.expect(type(cp) is type(o), "copy.class", type(cp).__name__)
             verify_all(None, "copy")
+        elif k == "pinv":
+            if len(live) >= MAX_LIVE or not pinv or e["ti"] is None:
+                continue
+            ctx.event("step=pseudoinverse of %s" % e["role"])
+            # (the old target with the dtype the caller passed it in: it becomes the source of the inverse)
+            old_t = np.array(o.target.points, copy=True)
+            b = o.pseudoinverse()
+            ok = ctx.expect(type(b) is type(o), "pseudoinverse.class", type(b).__name__)
+            ok &= ctx.expect(b is not o, "pseudoinverse.returns_receiver", "")
+            ok = ok and ctx.expect(np.array_equal(np.asarray(b.source.points), old_t), "pseudoinverse.source_is_not_the_old_target",
+                                   lambda: describe(np.asarray(b.source.points, dtype=float), old_t.astype(float)))
+            if not ok:
+                continue
+            ne = {"obj": b, "expect": observe(b), "role": "pseudoinverse", "src": old_t, "tarr": None, "ti": None, "stale": "pseudoinverse"}
+            live.append(ne)
+            verify_all(ne, "pseudoinverse")
         elif k == "from_vector":
-            if len(live) >= MAX_LIVE:
+            if len(live) >= MAX_LIVE or not vector:
                 continue
             ctx.event("step=from_vector on %s" % e["role"])
             v = np.array(o.as_vector(), dtype=float, copy=True)
@@ -403,16 +681,34 @@ def run_history(c, ctx):
             nv = v * (1 + p) + p
             b = o.from_vector(nv)
             ctx.expect(b is not o, "from_vector.returns_receiver", "")
-            ne = {"obj": b, "expect": Observed(b, q, homog), "role": "from_vector result", "ti": None}
+            ne = {"obj": b, "expect": observe(b), "role": "from_vector result" if e["role"] != "pseudoinverse" else "pseudoinverse",
+                  "src": e["src"], "tarr": None, "ti": None, "stale": "from_vector"}
             live.append(ne)
             verify_all(ne, "from_vector")
+        elif k == "fvi":
+            if not vector:
+                continue
+            ctx.event("step=from_vector_inplace on %s" % e["role"])
+            v = np.array(o.as_vector(), dtype=float, copy=True)
+            p = np.array(step[2][: v.shape[0]])
+            with warnings.catch_warnings():
+                warnings.simplefilter("ignore")
+                o.from_vector_inplace(v * (1 + p) + p)
+            mutated(e, "from_vector_inplace")
+        elif k == "compose":
+            if not homog:
+                continue
+            ctx.event("step=compose_%s_inplace on %s" % (step[2], e["role"]))
+            member = family_member(cls, d, step[3])
+            getattr(o, "compose_%s_inplace" % step[2])(member)
+            mutated(e, "compose_inplace")
 
     for role, obj, dg in provided:
         dd = digest.parameter_mutation(dg, digest.digest(obj))
         ctx.expect(dd is None, "caller_point_set_mutated." + role, lambda: "%s %s: %r" % (cls, opts, dd))
     ctx.expect(np.array_equal(q, q_before), "caller_point_set_mutated.probes", "")
 
-    n_distinct_arrays = len({pool[t].tobytes() for t in accepted})
+    n_distinct_arrays = len({t.tobytes() for t in accepted})
     has_opts = bool(_flip_options(c))
     for lab in visible:
         ctx.event("option visible: %s" % lab)
@@ -460,35 +756,66 @@ def c_warp(c, ctx):
 @st.composite
 def s_gpa(draw):
     d = draw(st.sampled_from([2, 3]))
-    n = draw(st.integers(d + 2, 8))
-    base = draw(gen.points_case(n=n, d=d).filter(gen.non_collinear))
-    k = draw(st.integers(3, 6))
-    level = draw(st.sampled_from([0.0, 0.02, 0.1, 0.3]))
-    shapes = []
-    for _ in range(k):
-        shapes.append({
-            "rot": draw(gen.orthogonal_case(d, allow_reflection=True)),
-            "s": draw(gen.q(0.5, 2)),
-            "t": draw(gen.vec(d, -8, 8)),
-            "noise": draw(st.lists(st.lists(gen.q(-1, 1), min_size=d, max_size=d), min_size=n, max_size=n)),
-        })
-    return {"d": d, "base": base, "level": level, "shapes": shapes, "allow_mirror": draw(st.booleans()),
-            "probes": draw(st.lists(gen.vec(d, -10, 10), min_size=2, max_size=4))}
+    mode = draw(st.sampled_from(["noisy", "unrelated"]))
+    c = {"d": d, "mode": mode, "allow_mirror": draw(st.booleans()), "int_sources": draw(st.integers(0, 3)) == 0,
+         "src_kind": draw(st.sampled_from(["PointCloud", "PointCloud", "TriMesh"])),
+         "probes": draw(st.lists(gen.vec(d, -10, 10), min_size=2, max_size=4))}
+    if mode == "noisy":
+        n = draw(st.integers(d + 2, 8))
+        c["base"] = draw(gen.points_case(n=n, d=d).filter(gen.non_collinear))
+        k = draw(st.integers(3, 6))
+        c["level"] = draw(st.sampled_from([0.0, 0.02, 0.1, 0.3]))
+        c["shapes"] = []
+        for _ in range(k):
+            c["shapes"].append({
+                "rot": draw(gen.orthogonal_case(d, allow_reflection=True)),
+                "s": draw(gen.q(0.5, 2)),
+                "t": draw(gen.vec(d, -8, 8)),
+                "noise": draw(st.lists(st.lists(gen.q(-1, 1), min_size=d, max_size=d), min_size=n, max_size=n)),
+            })
+    else:
+        # shapes that have nothing to do with each other: the mean shape converges slowly, the iteration cap is reached
+        # in some percent of the draws (more often with more points and larger coordinates: the stop rule is absolute)
+        n = draw(st.one_of(st.integers(d + 2, 12), st.integers(9, 12)))
+        k = draw(st.integers(2, 6))
+        c["extent"] = draw(st.sampled_from([10.0, 100.0, 1000.0]))
+        c["clouds"] = [draw(gen.points_case(n=n, d=d, extent=10.0).filter(gen.non_collinear)) for _ in range(k)]
+    c["conn"] = draw(objs.tri_case(n)) if c["src_kind"] == "TriMesh" else None
+    return c
+
+
+def gpa_arrays(c):
+    d = c["d"]
+    if c.get("mode", "noisy") == "noisy":
+        base = gen.arr(c["base"])
+        out = []
+        for s in c["shapes"]:
+            lin = s["s"] * gen.build_orthogonal(d, s["rot"])
+            out.append(np.array(_round(base.dot(lin.T) + gen.arr(s["t"]) + c["level"] * gen.arr(s["noise"]))))
+    else:
+        out = [np.array(_round(gen.arr(p) * (c["extent"] / 10.0))) for p in c["clouds"]]
+    if c.get("int_sources"):
+        out = [np.round(a).astype(np.int64) for a in out]
+    return out
 
 
 def c_gpa(c, ctx):
     d = c["d"]
-    base = gen.arr(c["base"])
-    arrays = []
-    for s in c["shapes"]:
-        lin = s["s"] * gen.build_orthogonal(d, s["rot"])
-        arrays.append(np.array(_round(base.dot(lin.T) + gen.arr(s["t"]) + c["level"] * gen.arr(s["noise"]))))
-    sources = [PointCloud(a.copy()) for a in arrays]
+    mode = c.get("mode", "noisy")
+    arrays = gpa_arrays(c)
+    if c.get("src_kind") == "TriMesh":
+        sources = [TriMesh(a.copy(), trilist=np.array(c["conn"], dtype=int)) for a in arrays]
+    else:
+        sources = [PointCloud(a.copy()) for a in arrays]
     dg = [digest.digest(s) for s in sources]
     am = c["allow_mirror"]
-    n_reflected = sum(1 for s in c["shapes"] if s["rot"]["reflect"])
-    ctx.event("%dD allow_mirror=%s noise=%g" % (d, am, c["level"]))
-    ctx.event("reflected sources: %s" % ("none" if n_reflected == 0 else "all" if n_reflected == len(sources) else "some"))
+    if mode == "noisy":
+        n_reflected = sum(1 for s in c["shapes"] if s["rot"]["reflect"])
+        ctx.event("%dD allow_mirror=%s noise=%g" % (d, am, c["level"]))
+        ctx.event("reflected sources: %s" % ("none" if n_reflected == 0 else "all" if n_reflected == len(sources) else "some"))
+    else:
+        ctx.event("%dD allow_mirror=%s unrelated shapes, extent %g" % (d, am, c["extent"]))
+    ctx.event("sources %s %s" % (c.get("src_kind", "PointCloud"), arrays[0].dtype))
     g = GeneralizedProcrustesAnalysis(sources, allow_mirror=am)
     ts = g.transforms
     if not ctx.expect(len(ts) == len(sources), "gpa.transform_count", "%d for %d sources" % (len(ts), len(sources))):
@@ -496,12 +823,13 @@ def c_gpa(c, ctx):
     gt = np.array(g.target.points, dtype=float, copy=True)
     if not ctx.expect(bool(np.all(np.isfinite(gt))), "gpa.target_not_finite", ""):
         return
-    ctx.event("iterations=%s" % ("1" if g.n_iterations == 1 else "2-5" if g.n_iterations <= 5 else "6+"))
-    q = gen.arr(c["probes"])
+    ctx.event("iterations=%s" % ("1" if g.n_iterations == 1 else "2-5" if g.n_iterations <= 5 else "6-50" if g.n_iterations <= 50 else "51+"))
+    ctx.event("converged=%s" % bool(g.converged))
+    q = gen.arr(c["probes"]) * (c.get("extent", 10.0) / 10.0)
     sc = _scale(gt, q, *arrays)
     vis = False
     for i, t in enumerate(ts):
-        info = "%dD allow_mirror=%s shape %d of %d" % (d, am, i, len(ts))
+        info = "%dD allow_mirror=%s %s shape %d of %d, converged=%s after %d iterations" % (d, am, mode, i, len(ts), g.converged, g.n_iterations)
         ctx.expect(np.array_equal(np.asarray(t.source.points), arrays[i]), "gpa.transform_source_is_not_the_ith_source", info)
         ctx.expect(np.array_equal(np.asarray(t.target.points), gt), "gpa.transform_target_is_not_the_reported_target",
                    lambda t=t: info + "\n" + describe(t.target.points, gt))
@@ -512,7 +840,9 @@ def c_gpa(c, ctx):
                    lambda t=t, fresh=fresh: info + "\n" + describe(t.apply(q), fresh.apply(q)))
         ctx.expect(close(t.aligned_source().points, fresh.aligned_source().points, rtol=0, atol=1e-10 * sc),
                    "gpa.transform_differs_from_fresh_alignment.aligned_source", info)
-        h_ref, well = rw.fit_similarity(arrays[i], gt, True, am)
+        ctx.expect(close(t.alignment_error(), fresh.alignment_error(), rtol=0, atol=1e-9 * sc),
+                   "gpa.transform_differs_from_fresh_alignment.alignment_error", info)
+        h_ref, well = rw.fit_similarity(arrays[i].astype(float), gt, True, am)
         if well:
             ctx.expect(close(t.h_matrix, h_ref, rtol=0, atol=1e-7 * sc), "gpa.transform_differs_from_reference_similarity",
                        lambda t=t, h_ref=h_ref: info + "\n" + describe(t.h_matrix, h_ref))
@@ -530,11 +860,14 @@ def c_gpa(c, ctx):
 
 CLAUSES = [
     Clause("history_homogeneous", c_homog, lambda: s_extras(s_homog()), quick=1500, thorough=30000, nt_floor=0.4,
-           rule="set_target / rejected target / copy / from_vector histories on the 5 homogeneous alignment classes x options x 2-D/3-D; "
+           rule="set_target / rejected target / copy / pseudoinverse / from_vector / in-place mutation histories on the 5 homogeneous "
+                "alignment classes x options x 2-D/3-D x source dtype and class; "
                 "non-trivial: >= 2 accepted retargets with distinct targets and (if the class has options) an option visibly matters"),
     Clause("history_warp", c_warp, lambda: s_extras(s_warp()), quick=800, thorough=20000, nt_floor=0.4,
-           rule="the same histories on ThinPlateSplines (kernel x floor) and PythonPWA/CachedPWA (PointCloud / explicit TriMesh source)"),
+           rule="the same histories on ThinPlateSplines (built-in and user-defined kernel x floor) and PythonPWA/CachedPWA (PointCloud / "
+                "graph / explicit TriMesh source)"),
     Clause("gpa", c_gpa, s_gpa, quick=400, thorough=8000, nt_floor=0.4,
-           rule="GeneralizedProcrustesAnalysis(target=None): each transform is the alignment of its own source to the reported target; "
+           rule="GeneralizedProcrustesAnalysis(target=None) on related and on unrelated shape sets (converged or stopped at the iteration "
+                "cap): each transform is the alignment of its own source to the reported target; "
                 "non-trivial: at least one mean-shape update happened"),
 ]
